@@ -1,5 +1,8 @@
 import BigtreeModel.Proto
 import BigtreeModel.BinStore
+import BigtreeModel.BinBridge
+import BigtreeModel.Iter
+import BigtreeModel.Query
 /-! Driver handler for property C11 (also used for the BinaryNode part of C02 and C20).
 
 One line = one whole history on `n` fresh `BinaryNode`s:
@@ -21,7 +24,12 @@ not a BinaryNode; `<fault>` ∈ `none|pre|post` says where the user hook raises)
 Output: for each op `<ok|rej> <node> <node> …` with `<node>` = `<id>:<parent>:<len(children)>:<left>:<right>`
 (`-` = `None`, `!` = `IndexError`), ops joined by ` ; `; `-` for the empty history.
 `bad-op`: unparsable line, a subject that is not a node, or (with `asrt=0`) an argument that is not
-a node — Python then dies half-way with `AttributeError`, outside the model's domain. -/
+a node — Python then dies half-way with `AttributeError`, outside the model's domain.
+
+Optional key `inorder=<v>` (tie of the bridge `BinStore.btreeOf`, `BigtreeProofs/Properties/BinBridge.lean`):
+after the history, ` ; inorder <ids> leaf <bits>` is appended — `inorder_iter` (`Iter.inorderImpl`, no filter, no
+depth limit) on the read-back of node `v` of the final store, and `is_leaf` (`Query.isLeafB`) of the read-back of
+every node (`1`/`0`, id order). -/
 namespace Drv.C11
 open Proto BinStore
 
@@ -99,9 +107,25 @@ def parseLine (toks : List String) : Option (Nat × Bool × List Op) := do
   let ops ← opToks.mapM parseOp
   if ops.all (inDomain n asrt) then pure (n, asrt, ops) else none
 
+/-- what the read-only functions see on the final store (read back through `btreeOf`) -/
+def showBridge (s : Store) (v : Nat) : String :=
+  "inorder " ++ showNats (Iter.inorderImpl (fun _ => true) 0 1 (btreeOf s (fun _ => []) s.n v)) ++
+  " leaf " ++ String.join ((List.range s.n).map fun i =>
+    if Query.isLeafB (btreeOf s (fun _ => []) s.n i) then "1" else "0")
+
 def handle (toks : List String) : String :=
   match parseLine toks with
   | none => "bad-op"
-  | some (n, asrt, ops) => showTrace (trace asrt (init n) ops)
+  | some (n, asrt, ops) =>
+    match kv toks "inorder" with
+    | none => showTrace (trace asrt (init n) ops)
+    | some t =>
+      match t.toNat? with
+      | some v =>
+        if v < n then
+          (if ops.isEmpty then "" else showTrace (trace asrt (init n) ops) ++ " ; ") ++
+            showBridge (run asrt (init n) ops) v
+        else "bad-op"
+      | none => "bad-op"
 
 end Drv.C11
